@@ -27,6 +27,10 @@ def gen_cases(seed, n):
                 ops.append({'redo': 1})
             else:
                 ops.append({'clear': 1})
+        if k % 3 == 1 and k % 4 != 3:
+            # some messages are acknowledged from inside the handler, at their first delivery, while a second acknowledging
+            # channel with the same filter is handed the same message
+            ops = [{'ack': i, 'early': 1} for i in range(nmsg) if r.chance(60)] + ops
         keep = True
         if k % 4 == 3:
             # the process ends early (every act answered) and, with keep_processes off, leaves the cache:
@@ -125,10 +129,12 @@ def run_cases(cases, workdir, backends=('mem', 'sqlite')):
             ok = True
             # the start: nmsg first deliveries, all rows created
             start_d = ";".join(f"{i}:0" for i in range(nmsg))
-            if sorted(il[0]['deliveries'].split(';')) != sorted(start_d.split(';')) or (ml[nmsg - 1][1] if nmsg else '') != il[0]['rows']:
-                dis.append({'backend': b, 'case': c, 'op': -1, 'model': ml[nmsg - 1] if nmsg else None, 'impl': il[0]})
+            # acknowledgements made inside the handler have happened by the first report: the model applies them as its first operations
+            nearly = len([o for o in c['ops'] if 'early' in o])
+            if sorted(il[0]['deliveries'].split(';')) != sorted(start_d.split(';')) or (ml[nmsg - 1 + nearly][1] if nmsg else '') != il[0]['rows']:
+                dis.append({'backend': b, 'case': c, 'op': -1, 'model': ml[nmsg - 1 + nearly] if nmsg else None, 'impl': il[0]})
                 continue
-            for j in range(len(c['ops'])):
+            for j in range(nearly, len(c['ops'])):
                 md, mr = ml[nmsg + j]
                 # the order of deliveries to different messages within one tick is the store's row order: not part of the property
                 canon = lambda d: sorted(x for x in d.split(';') if x)
